@@ -18,6 +18,7 @@ type rewrite struct {
 	SideEq   [][2]*T           // equalities between instruction fields
 	SideZero []*T              // fields required to be zero
 	PosSide  []string          // conditions over the Pos fields of the window only
+	Narrow   []string          // exclusions (operand != constant): they only narrow when the rewrite applies
 	Bound    int64             // the k of `n < len(in)-k`
 	HasBound bool
 	Skip     int64 // the amount added to n in the body
@@ -308,6 +309,16 @@ func (c *Ctx) extractPeephole(fd *ast.FuncDecl, sw *ast.SwitchStmt) (*peephole, 
 					continue
 				}
 				be, isB := e.(*ast.BinaryExpr)
+				// an exclusion (operand != constant) only narrows when the rewrite applies; the
+				// agreement proof does not get to assume it, so it can only be ignored soundly
+				if isB && be.Op == token.NEQ {
+					l := in.eval(st.Clone(), be.X)
+					rt := in.eval(st.Clone(), be.Y)
+					if l.Op == "field" && rt.Op == "int" || rt.Op == "field" && l.Op == "int" {
+						rw.Narrow = append(rw.Narrow, l.String()+" != "+rt.String())
+						continue
+					}
+				}
 				if !isB || be.Op != token.EQL {
 					okSide = false
 					break
